@@ -97,30 +97,60 @@ def parseExprStr (s : String) : Option (Expr V) :=
   | some (e, []) => some e
   | _ => none
 
+/-- adapter trees with scripted leaves `burst[1,-,2]` (`-` = an end marker) -/
+partial def parseRExpr (cs : List Char) : Option (RExpr V × List Char) :=
+  if let some r := stripPrefix "burst[" cs then
+    let body := r.takeWhile (· != ']')
+    let rest := (r.dropWhile (· != ']')).drop 1
+    let toks := if body.isEmpty then [] else (String.ofList body).splitOn ","
+    (toks.mapM (fun t => if t == "-" then some none else (V.parse t).map some)).map (fun items => (.burst items, rest))
+  else if let some r := stripPrefix "take(" cs then do
+    let (n, r) ← parseNatTok r
+    let (e, r) ← parseRExpr (← expect ',' r)
+    pure (.take n e, ← expect ')' r)
+  else if let some r := stripPrefix "skip(" cs then do
+    let (n, r) ← parseNatTok r
+    let (e, r) ← parseRExpr (← expect ',' r)
+    pure (.skip n e, ← expect ')' r)
+  else if let some r := stripPrefix "chain(" cs then do
+    let (a, r) ← parseRExpr r
+    let (b, r) ← parseRExpr (← expect ',' r)
+    pure (.chain a b, ← expect ')' r)
+  else if let some r := stripPrefix "cycle(" cs then do
+    let (e, r) ← parseRExpr r
+    pure (.cycle e, ← expect ')' r)
+  else if let some r := stripPrefix "padc(" cs then do
+    let (v, r) ← parseValTok r
+    let (n, r) ← parseNatTok (← expect ',' r)
+    let (e, r) ← parseRExpr (← expect ',' r)
+    pure (.padc v n e, ← expect ')' r)
+  else if let some r := stripPrefix "pade(" cs then do
+    let (n, r) ← parseNatTok r
+    let (e, r) ← parseRExpr (← expect ',' r)
+    pure (.pade n e, ← expect ')' r)
+  else if let some r := stripPrefix "cache(" cs then do
+    let (e, r) ← parseRExpr r
+    pure (.cache e, ← expect ')' r)
+  else (parseExpr cs).map (fun (e, r) => (.fused e, r))
+
+def parseRExprStr (s : String) : Option (RExpr V) :=
+  match parseRExpr s.toList with
+  | some (e, []) => some e
+  | _ => none
+
 /-- answers of the plain machine to `k` pulls -/
 def exprPulls (e : Expr V) (k : Nat) : List (Option V) := pulls e.compile.src e.compile.st k
 
-/-- `burst[1,-,2]`: scripted raw answers (`-` = an end marker) -/
-def parseBurst (s : String) : Option (List (Option V)) :=
-  if s.startsWith "burst[" then
-    let inner : String := String.ofList ((s.toList.drop 6).dropLast)
-    if inner.isEmpty then some [] else
-    (inner.splitOn ",").mapM (fun t => if t == "-" then some none else (V.parse t).map some)
-  else none
-
-/-- the scripted source as a machine: one raw answer per pull, end markers for ever once the script is used up -/
-def burstSrc : Src V :=
-  { σ := List (Option V), next := fun l => match l with | [] => (none, []) | o :: r => (o, r) }
-
 def srcModelAnswer (i : SrcInst) (op : String) : Option V :=
   let log := i.log ++ [op]
-  match i.burst with
-  | some items =>
-    if i.top == "peek" then ((runPeek burstSrc { st := items, peeked := none } (log.map (· == "peek"))).getLast?).getD none
+  match i.raw with
+  | some r =>
+    let m := r.compile
+    if i.top == "peek" then ((runPeek m.src { st := m.st, peeked := none } (log.map (· == "peek"))).getLast?).getD none
     else
       let k := (log.filter (· == "pull")).length
-      if op == "cached" then (if (i.log.filter (· == "pull")).length == 0 then none else ((pulls burstSrc items k).getLast?).getD none)
-      else ((pulls burstSrc items k).getLast?).getD none
+      if op == "cached" then (if (i.log.filter (· == "pull")).length == 0 then none else ((pulls m.src m.st k).getLast?).getD none)
+      else ((pulls m.src m.st k).getLast?).getD none
   | none =>
   match i.top with
   | "peek" => ((runPeek i.e.compile.src { st := i.e.compile.st, peeked := none } (log.map (· == "peek"))).getLast?).getD none
@@ -133,10 +163,12 @@ def srcModelAnswer (i : SrcInst) (op : String) : Option V :=
 /-- specification: the iterator analogue (`Expr.den`) -/
 def srcSpecAnswer (i : SrcInst) (op : String) : Option V :=
   let consumed := (i.log.filter (· == "pull")).length
-  match i.burst with
-  | some items =>
-    -- `Peekable` over the raw answers: with `k` consumed, `peek` and `pull` both report raw answer `k`
-    let raw (k : Nat) : Option V := (items[k]?).getD none
+  match i.raw with
+  | some r =>
+    -- `Peekable` over the raw answers of the tree's machine: with `k` consumed, `peek` and `pull` both report raw
+    -- answer `k` (there is no iterator analogue of a non-fused source to compare the tree itself with)
+    let m := r.compile
+    let raw (k : Nat) : Option V := rawAnswer m.src m.st k
     if op == "cached" then (if consumed == 0 then none else raw (consumed - 1))
     else if i.top == "peek" then ((peekSpecRaw raw 0 ((i.log ++ [op]).map (· == "peek"))).getLast?).getD none
     else raw consumed
@@ -169,9 +201,9 @@ def stepSourceOp (d : DState) (op : String) (toks impl : List String) : Option (
   let implS := " ".intercalate impl
   match toks with
   | ["new", id, top, expr] =>
-    if (top == "src" || top == "peek" || top == "scache") && expr.startsWith "burst[" then do
-      let items ← parseBurst expr
-      let d := (d.putSrc (← id.toNat?) { e := .iter [], top := top, burst := some items }).flag "src.burst"
+    if (top == "src" || top == "peek" || top == "scache") && (expr.splitOn "burst[").length > 1 then do
+      let r ← parseRExprStr expr
+      let d := (d.putSrc (← id.toNat?) { e := .iter [], top := top, raw := some r }).flag "src.burst"
       some (report d op { model := "ok", impl := implS, kind := top })
     else if top == "src" || top == "peek" || top == "scache" then do
       let e ← parseExprStr expr
@@ -472,6 +504,14 @@ def stepPipeOp (d : DState) (op : String) (toks impl : List String) : Option (DS
     let d := d.putPipe id { p with log := log }
     some (report d op { model := m.render, impl := implS, kind := "pipe",
                         clauses := [{ name := "C01.sequential-composition", ok := e.render == implS, expected := e.render }] })
+  | ["pclone", a, b] => do
+    -- a copy of a pipe is a pipe of copies of all its stages: same stages, same history
+    let p ← d.getPipe (← a.toNat?)
+    some (report ((d.putPipe (← b.toNat?) p).flag "pipe.clone") op { model := "ok", impl := implS, kind := "pipe" })
+  | ["pclonefrom", a, b] => do
+    -- `a.clone_from(&b)`: afterwards `a` is a copy of `b`
+    let p ← d.getPipe (← b.toNat?)
+    some (report ((d.putPipe (← a.toNat?) p).flag "pipe.clone-from") op { model := "ok", impl := implS, kind := "pipe" })
   | ["ppull", id] => do
     -- Source::source on a pipe whose first stage is a source
     let id ← id.toNat?
